@@ -14,7 +14,8 @@ from ..gen.project import Gen, Knobs, Unit
 THEOREMS = ["Schedule.process_terminates_drains", "Schedule.state_order_independent", "Schedule.one_bad_file",
             "Schedule.exit_status_range", "Schedule.exit_status_three_iff", "Schedule.exit_status_two_iff",
             "Schedule.acyclic_sees_final", "Schedule.body_view_acyclic", "Schedule.body_view_order_independent",
-            "Schedule.cyclic_sees_unfinished"]
+            "Schedule.cyclic_sees_unfinished",
+            "PostProcess.kind_pass_spec", "PostProcess.kind_pass_order_independent", "PostProcess.early_stop_order_dependent"]
 RULE = ("generated projects (cross-module bases, star imports, __all__ re-exports, import cycles, unparsable files) analysed "
         "under every reachable processing order for small projects (package first, its modules in any order, roots in any "
         "order; sampled beyond 120 orders). (a) the real processModule/getProcessedModule call log of every order is "
